@@ -82,7 +82,7 @@ def prepopulate(proj, R, vector, fail_kinds=None):
     for t in R.targets:
         j = sim.latest(t.name)
         if j is None:
-            raise HarnessError(f"pre-population: {t.name} was not submitted: " + r.brief())
+            raise SubjectFailure(f"pre-population: `gwf run` on a fresh project did not submit {t.name}: " + r.brief())
         jobs[t.name] = j
     for name, j in jobs.items():
         set_job_state(sim, j, vector.get(name, "unknown"), (fail_kinds or {}).get(name, "exit"))
